@@ -63,8 +63,8 @@ class Sentences(Part):
     examples = {QUICK: 1000, THOROUGH: 50000}
 
     def strategy(self, tier: str) -> t.Any:
-        mixed = tier == THOROUGH and False
-        return st.one_of(rfc4515.sentence(max_leaves=6), rfc4515.sentence(max_leaves=6), rfc4515.sentence(max_leaves=2), rfc4515.deep_sentence((13, 60)))
+        deep = (13, 60) if tier == QUICK else (13, 150)
+        return st.one_of(rfc4515.sentence(max_leaves=6), rfc4515.sentence(max_leaves=6), rfc4515.sentence(max_leaves=2), rfc4515.deep_sentence(deep))
 
     def check(self, case: t.Any, ctx: Ctx) -> t.List[Violation]:
         return check_sentence(case, ctx)
@@ -81,7 +81,7 @@ PROP = Property(
         "Generated: sentences produced by walking the RFC 4515 grammar (all item productions, all six extensible forms, "
         "attribute descriptions with options and numeric OIDs, every value octet chosen between its literal form where "
         "'normal' allows it - incl. raw multi-byte UTF-8, control characters, = : ~ < > ! & | and spaces - and \\hh in "
-        "lower/upper/mixed hex case, empty values, nesting up to 60), optionally decorated with the spaces the library "
+        "lower/upper/mixed hex case, empty values, nesting up to 60, thorough: 150), optionally decorated with the spaces the library "
         "documents as tolerated (around the filter, after '(', after the operator, between and after sub-filters); the "
         "expected tree comes from the derivation and is cross-checked against the reference parser on every case. "
         "Oracle: from_string(text) projects to that tree and the SearchRequest packed with it reference-decodes to the "
